@@ -2,6 +2,7 @@ package pebbles
 
 import (
 	"encoding/json"
+	"sort"
 
 	"github.com/buildbuildio/pebbles/planner"
 	"github.com/buildbuildio/pebbles/requests"
@@ -34,6 +35,19 @@ func vPickScenario() (vScenario, vOp) {
 }
 
 type vPair struct{ typ, field string }
+
+// vSortedPairs: obligations are checked in a fixed order, so that the first one that fails does not
+// depend on Go's map iteration order (the native replay of a path must end with the same message)
+func vSortedPairs(m map[vPair]bool) []vPair {
+	var out []vPair
+	for p := range m {
+		out = append(out, p)
+	}
+	sort.Slice(out, func(i, j int) bool {
+		return out[i].typ < out[j].typ || (out[i].typ == out[j].typ && out[i].field < out[j].field)
+	})
+	return out
+}
 
 // vSelCount counts how many times every (parent type, field) pair is selected, through fragments
 func vSelCount(ss ast.SelectionSet, out map[vPair]int) {
@@ -173,7 +187,7 @@ func VerifSubRequests() {
 		}
 		sel := map[vPair]bool{}
 		vSelected(sop.SelectionSet, sel)
-		for p := range sel {
+		for _, p := range vSortedPairs(sel) {
 			covered[p] = true
 			if !client[p] {
 				verifAssert(p.field == "id" || p.field == "__typename" || (p.typ == "Query" && p.field == "node"),
@@ -181,7 +195,7 @@ func VerifSubRequests() {
 			}
 		}
 	}
-	for p := range client {
+	for _, p := range vSortedPairs(client) {
 		if p.field == "__typename" {
 			continue
 		}
